@@ -226,6 +226,7 @@ def check(pm: ProgramModel, ctx: Ctx) -> None:
     # arithmetic / aggregate trees for the kind predicates ----------------------------------------------
     kinds_nonlogical(pm, ctx, mb, methods, ev)
     ctcname(pm, ctx)
+    history(pm, ctx, mb, methods, lr, split)
     # report ----------------------------------------------------------------------------------------------
     where = loc(cons.unit.path, cons.node)
     for (rule_, key), n in sorted(oks.items()):
@@ -350,3 +351,56 @@ def ctcname(pm: ProgramModel, ctx: Ctx) -> None:
     ctx.check(not bad, "C18-NAMES", "get_new_ctc_name", loc(fn.unit.path, fn.node),
               "the generated constraint name starts with the prefix and is not in the given list",
               bad="; ".join(bad[:2]))
+
+
+def history(pm: ProgramModel, ctx: Ctx, mb: ModelBuilder, methods: dict[str, Any], lr: Any, split: Any) -> None:
+    """No answer depends on a constraint asked about earlier in the process: two constraints whose texts differ
+    only in the letter case of feature names (equal under Constraint.__eq__, yet different constraints over
+    different features) are asked in turn; then the returned collection is edited by the caller and the same
+    constraint is asked again. Each answer must be the one a fresh process gives."""
+    from ..absint import reset_global_state
+    n, o = mb.node, mb.op
+    pairs = {
+        "implies": (lambda: n(o("IMPLIES"), n("A"), n("b")), lambda: n(o("IMPLIES"), n("a"), n("B"))),
+        "excludes": (lambda: n(o("EXCLUDES"), n("Wifi"), n("LTE")), lambda: n(o("EXCLUDES"), n("WIFI"), n("lte"))),
+        "literal": (lambda: n("Net"), lambda: n("NET")),
+        "complex": (lambda: n(o("OR"), n("A"), n(o("AND"), n("b"), n("C"))), lambda: n(o("OR"), n("a"), n(o("AND"), n("B"), n("c")))),
+    }
+    fns = dict(methods)
+    fns["left_right_features_from_simple_constraint"] = lr
+    fns["split_constraint"] = split
+
+    def norm(v: Any) -> Any:
+        if isinstance(v, (list, tuple)):
+            return [norm(x) for x in v]
+        if isinstance(v, AObj):
+            return Interp(pm).to_str(v._f["_ast"]) if "_ast" in v._f else repr(v)
+        return v
+
+    def ask(it: Interp, fn: Any, c: AObj) -> Any:
+        try:
+            return it.call(fn, [c])
+        except AbsRaise as exc:
+            return ("raise", exc.what.split(" at ")[0])
+    nh = 0
+    for pname, (mk1, mk2) in pairs.items():
+        for fname, fn in sorted(fns.items()):
+            reset_global_state()
+            it = Interp(pm, max_depth=60)
+            ask(it, fn, mb.constraint("k1", mk1()))
+            c2 = mb.constraint("k2", mk2())
+            raw = ask(it, fn, c2)
+            second = norm(raw)
+            if isinstance(raw, list):
+                raw.append("edited-by-the-caller")
+            again = norm(ask(it, fn, c2))
+            reset_global_state()
+            fresh = norm(ask(Interp(pm, max_depth=60), fn, mb.constraint("k2", mk2())))
+            nh += 1
+            ok = second == fresh and again == fresh
+            ctx.check(ok, "C18-HISTORY", f"history:{fname}" if not ok else f"history:{fname}:{pname}",
+                      loc(fn.unit.path, fn.node), f"{fname} on a look-alike constraint asked second answers for that constraint",
+                      bad=f"{fname} on `{pname}` look-alike asked after its twin gives {str(second)[:80]}, asked again after the caller "
+                          f"edited the returned list gives {str(again)[:80]}; a fresh process gives {str(fresh)[:80]}")
+    reset_global_state()
+    ctx.floor("C18-HISTORY", "history evaluations", nh, 30)
